@@ -708,6 +708,12 @@ func (g *pathGen) awareComparison() (string, bool) {
 			}
 		}
 	}
+	if g.rootPath != "" && chance(5) {
+		// against ALL the members, reached from the root through each multi-valued step kind:
+		// the grammar must refuse it (a comparison needs single values)
+		op := pick([]string{"<", "<=", ">", ">=", "==", "!="})
+		return at + sp() + op + sp() + g.rootPath + groupSuffix(), true
+	}
 	if g.rootPath != "" && len(g.memberSel) == len(g.members) && at != "@" && chance(20) {
 		// against the very same field of one member, reached from the root: true for some
 		// members and false for that one (or the other way round) whatever the leaves hold
